@@ -2,7 +2,7 @@
    Only theorem statements closed by `exact` (or a one-line combination), each followed by
    Print Assumptions; plus non-vacuity examples and the refutation witnesses of the findings. *)
 From Snax Require Import Base.Prelude Model.Tsl Model.C12Const Model.C12Casts Proofs.TslProofs
-  Proofs.C05DigitProofs Proofs.C05MainProofs Proofs.C05ExtraProofs Proofs.C12ConstProofs Proofs.C12CastsProofs Proofs.C12CoherenceProofs Proofs.C12NestedProofs Proofs.C12ComposeProofs.
+  Proofs.C05DigitProofs Proofs.C05MainProofs Proofs.C05ExtraProofs Proofs.C12ConstProofs Proofs.C12CastsProofs Proofs.C12CoherenceProofs Proofs.C12NestedProofs Proofs.C12ComposeProofs Proofs.C12DenseProofs.
 
 (* (i) re-laid-out constants: for every static layout with positive bounds that satisfies the
    sortedness precondition (checked to follow from is_dense by the correspondence run), any contents
@@ -198,3 +198,31 @@ Example C12_realize_top_applies :
   rz_list p 3%nat p = [ICast 2 0 1 0; IAlloc 3; IOp 0 [(2, KIn); (3, KOut)]; ICopy 3 1; IOp 9 []]%nat.
 Proof. exact realize_top_applies. Qed.
 Print Assumptions C12_realize_top_applies.
+
+(* (i) is_dense implies the sortedness precondition, for layouts with positive steps: the addresses of a
+   dense layout are exactly [0, N) with unique digit vectors; in ascending step order each stride with
+   bound > 1 must have the product of the bounds before it as its step (the value P is representable, so
+   the step is <= P; a smaller step would be represented twice). *)
+Theorem C12_dense_mixed_radix_sorted :
+  forall L, layout_okb L = true -> forallb (fun sb0 => 0 <? fst sb0) (flat_static L) = true ->
+    is_dense L = true -> mixed_radix_sorted L = true.
+Proof. intros L H. apply layout_okb_ok in H. exact (dense_mixed_radix_sorted L H). Qed.
+Print Assumptions C12_dense_mixed_radix_sorted.
+
+(* transform_constant, without any precondition beyond what the code itself tests (is_dense) and positive
+   steps: for EVERY dense static layout with positive steps, all contents and all indices, the constant is
+   transformed and new[addr_L idx] = old[row_major idx]. *)
+Theorem C12_dense_transform_constant_correct :
+  forall (L : layout) (old : list Z),
+    layout_okb L = true -> forallb (fun sb0 => 0 <? fst sb0) (flat_static L) = true -> is_dense L = true ->
+    exists new, transform_constant old L = Some (Some new) /\
+      forall idx, In idx (row_major (shape_of L)) ->
+        nth (Z.to_nat (affine_map_eval L idx)) new 0 = nth (Z.to_nat (rm_addr (shape_of L) idx)) old 0.
+Proof. intros L old H. apply layout_okb_ok in H. exact (dense_transform_constant_correct L old H). Qed.
+Print Assumptions C12_dense_transform_constant_correct.
+
+Example C12_dense_nonvacuous :
+  let L := mkLayout [[(Some 8, Some 2); (Some 2, Some 2)]; [(Some 4, Some 2); (Some 1, Some 2)]] (Some 0) in
+  layout_okb L = true /\ forallb (fun sb0 => 0 <? fst sb0) (flat_static L) = true /\ is_dense L = true.
+Proof. repeat split; reflexivity. Qed.
+Print Assumptions C12_dense_nonvacuous.
